@@ -17,6 +17,7 @@ import (
 	"time"
 
 	"github.com/arloliu/go-secs/v2/hsms"
+	"github.com/arloliu/go-secs/v2/secs1"
 	"github.com/arloliu/go-secs/v2/secs2"
 	"github.com/arloliu/go-secs/v2/verifsim/core"
 	"github.com/arloliu/go-secs/v2/verifsim/refe4"
@@ -578,6 +579,12 @@ func (h *harness1) quiescent(where string) {
 			t3++
 		case errors.Is(c.Err, hsms.ErrNotSelectedState):
 			dropNS++
+		case errors.Is(c.Err, secs1.ErrSendFailed):
+			// the retry budget of a block was used up: a failed send on the wire, whatever else the error
+			// may also claim to be
+			if c.Kind == kW || c.Kind == kNoW || c.Kind == kForward {
+				werr++
+			}
 		case errors.Is(c.Err, hsms.ErrConnClosed), errors.Is(c.Err, context.DeadlineExceeded), errors.Is(c.Err, context.Canceled), errors.Is(c.Err, hsms.ErrNotOpen):
 		default:
 			if c.Kind == kW || c.Kind == kNoW || c.Kind == kForward {
